@@ -29,5 +29,5 @@ CHECKER_MODULES = ["Spdc.Real.DeltaK"]
 
 
 def families(tier, seed):
-    n = 1500 if tier == "quick" else 40000
+    n = 8000 if tier == "quick" else 60000
     return [("dk", seed, n, [])]
